@@ -144,7 +144,9 @@ func c03Session(r *core.Rng, defs []ast.Node, call ast.Node) (stmts []ast.Node, 
 				ast.For{Vars: []string{"zq", "zr"}, Iters: []ast.Node{icall("fromto", il(0), il(2)), icall("elems", ast.StrLit{V: "xy"})}, Body: nm("zq")},
 				ast.Assign{Name: dst, Value: call}}}}
 		}},
-		{"as-argument", func(dst string) []ast.Node { return []ast.Node{ast.Assign{Name: dst, Value: icall("zid", icall("zid", call))}} }},
+		{"as-argument", func(dst string) []ast.Node {
+			return []ast.Node{ast.Assign{Name: dst, Value: icall("zid", icall("zid", call))}}
+		}},
 	}
 	order := make([]int, len(pls))
 	for i := range order {
@@ -338,8 +340,8 @@ func c03Uninit(ctx *core.Ctx, idx int) core.Result {
 
 func init() {
 	register(&core.Property{
-		ID: "C03",
-		Rule: "one session per case: a side-effect-free function (random typed pure function with closures/loops/generators; closure created before and read after a deep call while its captured variable is updated; 20..300-local function whose loop iterator reads its last local; loops over zipped generators calling returned closures) and an argument tuple; the call is evaluated in 13 dynamic contexts in random order — first statement, argument at recursion depth 1/10/130/1000, while body, for body, inside a generator, twice in one array literal, after a failed statement, after the stack grew by 140..4000 frames, after contexts were created and recycled in the same statement, nested identity calls — interleaved with noise statements; all renderings must be equal to the first and to the reference; plain/tight/pregrown allocation. non-trivial = >= 8 placements compared; distinct by session and stress mode.",
+		ID:          "C03",
+		Rule:        "one session per case: a side-effect-free function (random typed pure function with closures/loops/generators; closure created before and read after a deep call while its captured variable is updated; 20..300-local function whose loop iterator reads its last local; loops over zipped generators calling returned closures) and an argument tuple; the call is evaluated in 13 dynamic contexts in random order — first statement, argument at recursion depth 1/10/130/1000, while body, for body, inside a generator, twice in one array literal, after a failed statement, after the stack grew by 140..4000 frames, after contexts were created and recycled in the same statement, nested identity calls — interleaved with noise statements; all renderings must be equal to the first and to the reference; plain/tight/pregrown allocation. non-trivial = >= 8 placements compared; distinct by session and stress mode.",
 		Assumptions: []string{"functions whose plain evaluation the reference finds ambiguous are dropped", "global bindings are unchanged between placements by construction (noise uses disjoint names)"},
 		Families: []core.Family{
 			{Name: "placements", Count: countFn(1500, 150000), Run: c03Case},
